@@ -34,6 +34,14 @@ type bundleCase struct {
 	GOOS    string `json:"goos"`
 	GOARCH  string `json:"goarch"`
 	Out     bool   `json:"out"` // explicit output path (else a temporary file)
+	// Pre is the state of the explicit output path before the call: "" / "absent",
+	// "empty", "shorter", "same" (same length, other bytes), "longer", "readonly"
+	// (longer, mode 0400). Prior, when set, is a platform extracted to the same
+	// path immediately before (two extractions to one path).
+	Pre       string `json:"pre,omitempty"`
+	PriorOS   string `json:"prior_os,omitempty"`
+	PriorArch string `json:"prior_arch,omitempty"`
+	HasPrior  bool   `json:"has_prior,omitempty"`
 	// Custom selects the entry-name leg: a single bundle next to the executable
 	// (FHS bin layout, started directly) whose archive holds exactly Entries, in
 	// this order, each with its own distinct payload.
@@ -64,7 +72,14 @@ func (c bundleCase) key() string {
 	if c.Custom {
 		return fmt.Sprintf("custom;entries=%s;platform=%s_%s;out=%v", strings.Join(c.Entries, ","), c.GOOS, c.GOARCH, c.Out)
 	}
-	return fmt.Sprintf("%s;platform=%s_%s;out=%v", c.layoutKey(), c.GOOS, c.GOARCH, c.Out)
+	k := fmt.Sprintf("%s;platform=%s_%s;out=%v", c.layoutKey(), c.GOOS, c.GOARCH, c.Out)
+	if c.Pre != "" {
+		k += ";pre=" + c.Pre
+	}
+	if c.HasPrior {
+		k += fmt.Sprintf(";prior=%s_%s", c.PriorOS, c.PriorArch)
+	}
+	return k
 }
 
 // bundlePayloads returns the entries (name -> bytes) of the bundle at location
@@ -157,6 +172,7 @@ func writeCustomBundle(path string, entries []string) error {
 // bundleRequest / bundleReply are the parent <-> child protocol (one JSON line each).
 type bundleRequest struct {
 	GOOS, GOARCH, Out string
+	Keep              bool // leave the extracted file in place (first half of a two-extraction sequence)
 }
 type bundleReply struct {
 	Path    string
@@ -198,7 +214,9 @@ func TestC46Child(t *testing.T) {
 			if rerr != nil {
 				rep.ReadErr = rerr.Error()
 			}
-			os.Remove(path)
+			if !req.Keep {
+				os.Remove(path)
+			}
 		}
 		fmt.Print("C46 ")
 		out.Encode(rep)
@@ -276,7 +294,55 @@ func (l *bundleLayout) ask(c bundleCase) (bundleReply, error) {
 	if c.Out {
 		l.nOut++
 		req.Out = filepath.Join(l.root, "out", fmt.Sprintf("agent%d", l.nOut))
+		// pre-existing state of the output path
+		want, _ := expectedBody(c)
+		n := len(want)
+		if n == 0 {
+			n = 10
+		}
+		var pre []byte
+		mode := os.FileMode(0o600)
+		switch c.Pre {
+		case "", "absent":
+			pre = nil
+		case "empty":
+			pre = []byte{}
+		case "shorter":
+			pre = bytes.Repeat([]byte{'Z'}, n/2)
+		case "same":
+			pre = bytes.Repeat([]byte{'Z'}, n)
+		case "longer":
+			pre = bytes.Repeat([]byte{'Z'}, n+37)
+		case "readonly":
+			pre = bytes.Repeat([]byte{'Z'}, n+37)
+			mode = 0o400
+		default:
+			return bundleReply{}, fmt.Errorf("unknown pre state %q", c.Pre)
+		}
+		if pre != nil {
+			if err := os.WriteFile(req.Out, pre, mode); err != nil {
+				return bundleReply{}, err
+			}
+		}
+		if c.HasPrior {
+			// first extraction of the sequence: another platform to the same path,
+			// left in place
+			first := bundleRequest{GOOS: c.PriorOS, GOARCH: c.PriorArch, Out: req.Out, Keep: true}
+			if _, err := l.exchange(first); err != nil {
+				return bundleReply{}, err
+			}
+		}
+		defer os.Remove(req.Out)
 	}
+	rep, err := l.exchange(req)
+	if err == nil && c.Out && rep.Err == "" && rep.Path != req.Out {
+		rep.ReadErr = fmt.Sprintf("returned path %q differs from the requested output path %q", rep.Path, req.Out)
+	}
+	return rep, err
+}
+
+// exchange sends one request line and reads the reply line.
+func (l *bundleLayout) exchange(req bundleRequest) (bundleReply, error) {
 	data, _ := json.Marshal(req)
 	if _, err := l.stdin.Write(append(data, '\n')); err != nil {
 		return bundleReply{}, err
@@ -289,9 +355,6 @@ func (l *bundleLayout) ask(c bundleCase) (bundleReply, error) {
 		if strings.HasPrefix(line, "C46 ") {
 			var rep bundleReply
 			err := json.Unmarshal([]byte(line[4:]), &rep)
-			if err == nil && c.Out && rep.Err == "" && rep.Path != req.Out {
-				rep.ReadErr = fmt.Sprintf("returned path %q differs from the requested output path %q", rep.Path, req.Out)
-			}
 			return rep, err
 		}
 	}
@@ -306,11 +369,43 @@ func (l *bundleLayout) stop() {
 	os.RemoveAll(l.root)
 }
 
+// expectedBody returns the archive entry the oracle expects to be extracted for
+// c (ok=false when a rejection is expected or the statement leaves it open).
+func expectedBody(c bundleCase) (body []byte, ok bool) {
+	name := c.GOOS + "_" + c.GOARCH
+	if c.Custom {
+		for _, e := range c.Entries {
+			if e == name {
+				return customPayload(e), true
+			}
+		}
+		return nil, false
+	}
+	used := ""
+	switch {
+	case c.Loc == "exe" || c.Loc == "both":
+		used = "exe"
+	case c.Loc == "libexec" && c.Dir == "bin":
+		used = "libexec"
+	}
+	if used == "" {
+		return nil, false
+	}
+	_, payload := bundlePayloads(used)
+	body, ok = payload[name]
+	return body, ok
+}
+
 // judgeBundle is the oracle. "the directory of the running executable takes
 // precedence over the libexec directory, and the first location holding a
 // bundle is the one used. The extracted agent is byte-for-byte the archive entry
 // for the requested platform, and unknown platforms are rejected."
 func judgeBundle(c bundleCase, rep bundleReply) (what, class string) {
+	if c.Pre == "readonly" && rep.Err != "" {
+		// An unwritable output file may legitimately make the extraction fail (it
+		// does not when running as root); only a reported success is judged.
+		return "", "readonly-output-refused"
+	}
 	// the search order as documented: executable directory first, then (FHS "bin"
 	// layout only) ../libexec
 	if c.Custom {
@@ -555,7 +650,7 @@ func TestC46(t *testing.T) {
 	if vr.Thorough() {
 		dirs = []string{"bin", "tools"}
 	}
-	r.Rule(fmt.Sprintf("the test binary is hard-linked into <tmp>/prefix/<dir>/ and re-executed as a child that calls the real agent.ExecutableForPlatform; layouts = bundle (tar.gz built by the harness) present in {neither, executable directory, ../libexec, both with DISTINCT payloads and different platform sets} x executable started directly / through a symlink in another directory x executable directory name %v x archive entry order {forward, reverse}; per layout every platform of %v x output {temporary file, explicit path}; non-trivial = at least one bundle exists. Entry-name leg: one bundle next to the executable whose archive holds every subset of an alphabet of prefix-related entry names (arm/arm64, ppc64/ppc64le, 3/38/386, linux/linuxx, arm64/arm64e, an entry with an extension, an entry without separator) in EVERY order with a distinct payload per entry, requested with every name, every proper prefix of a name that contains the separator, and every name extended by one character; non-trivial there = the archive holds an entry prefix-related to but different from the requested name. Distinct by (layout or archive, platform, output).", dirs, platforms))
+	r.Rule(fmt.Sprintf("the test binary is hard-linked into <tmp>/prefix/<dir>/ and re-executed as a child that calls the real agent.ExecutableForPlatform; layouts = bundle (tar.gz built by the harness) present in {neither, executable directory, ../libexec, both with DISTINCT payloads and different platform sets} x executable started directly / through a symlink in another directory x executable directory name %v x archive entry order {forward, reverse}; per layout every platform of %v x output {temporary file; explicit path whose prior state is absent / empty / shorter than the entry / same length other bytes / LONGER than the entry / longer and read-only; explicit path to which every other platform of the bundle in use was extracted immediately before}; non-trivial = at least one bundle exists. Entry-name leg: one bundle next to the executable whose archive holds every subset of an alphabet of prefix-related entry names (arm/arm64, ppc64/ppc64le, 3/38/386, linux/linuxx, arm64/arm64e, an entry with an extension, an entry without separator) in EVERY order with a distinct payload per entry, requested with every name, every proper prefix of a name that contains the separator, and every name extended by one character; non-trivial there = the archive holds an entry prefix-related to but different from the requested name. Distinct by (layout or archive, platform, output).", dirs, platforms))
 	r.Assume("linux: os.Executable resolves the symlink the child was started through, so the executable's directory is the real one in both start modes",
 		"BundleLocationDefault (the production setting) only; the build-directory mode used by integration tests is not explored",
 		"for an executable outside an FHS bin directory with a bundle in ../libexec only, both rejection and use of the libexec bundle are accepted (the statement is silent; the code documents libexec as searched for bin layouts only)",
@@ -575,15 +670,40 @@ func TestC46(t *testing.T) {
 	vr.Parallel(len(layouts), func(i int) { layoutFor(layouts[i]) })
 	for _, lc := range layouts {
 		l := layoutFor(lc)
+		var cases []bundleCase
 		for _, p := range platforms {
-			for _, out := range []bool{false, true} {
-				c := lc
-				c.GOOS, c.GOARCH, c.Out = p.GOOS, p.GOARCH, out
+			c := lc
+			c.GOOS, c.GOARCH = p.GOOS, p.GOARCH
+			cases = append(cases, c) // temporary file
+			for _, pre := range []string{"absent", "empty", "shorter", "same", "longer", "readonly"} {
+				co := c
+				co.Out, co.Pre = true, pre
+				cases = append(cases, co)
+			}
+			// two extractions to the same explicit path: every other platform that the
+			// bundle in use holds first, then this one
+			for _, q := range platforms {
+				prior := lc
+				prior.GOOS, prior.GOARCH = q.GOOS, q.GOARCH
+				if _, ok := expectedBody(prior); ok && q != p {
+					co := c
+					co.Out, co.HasPrior, co.PriorOS, co.PriorArch = true, true, q.GOOS, q.GOARCH
+					cases = append(cases, co)
+				}
+			}
+		}
+		{
+			for _, c := range cases {
 				what, class, rep := runOne(c)
 				if !strings.HasPrefix(rep.Exe, filepath.Join(l.root, "prefix", lc.Dir)+string(filepath.Separator)) {
 					t.Fatalf("INFRA: child sees executable %q outside its layout %q", rep.Exe, l.root)
 				}
 				r.Case(c.key(), lc.Loc != "neither")
+				if c.HasPrior {
+					class += "+second-extraction-to-same-path"
+				} else if c.Pre != "" && c.Pre != "absent" && class != "readonly-output-refused" {
+					class += "+over-existing-file"
+				}
 				r.Outcome(class)
 				if what != "" {
 					r.Violate(c.key(), what, c, func() bool { w, _, _ := runOne(c); return w != "" })
